@@ -55,6 +55,16 @@ def odd_names(w=3):
     o3 <<= d2 & ~d10
     o4 = pyrtl.Output(w, 'res[9]')
     o4 <<= d10 | d2
+    # an odd name next to a wire literally named like its underscore-substituted form, a leading digit next to
+    # its underscore-prefixed form, `clk` look-alikes
+    e1, e2, e3, e4 = pyrtl.Input(w, 'a.b'), pyrtl.Input(w, 'a_b'), pyrtl.Input(w, '1st'), pyrtl.Input(w, '_1st')
+    e5, e6 = pyrtl.Input(w, 'bus[0]'), pyrtl.Input(w, 'bus_0_')
+    o6 = pyrtl.Output(w, 'clk_0')
+    o6 <<= (e1 ^ e3) & e5
+    o7 = pyrtl.Output(w, 'r-s')
+    o7 <<= (e2 + e4 + e6)[:w]
+    o8 = pyrtl.Output(w, 'r_s')
+    o8 <<= e2 | e4
     # names with non-ASCII letters / digits (word characters for Python's \\w, not for Verilog)
     u1, u2 = pyrtl.Input(w, 'entr\u00e9e'), pyrtl.Input(w, 'x\u00b2')
     o5 = pyrtl.Output(w, 'r\u00e9sultat')
